@@ -1134,7 +1134,10 @@ def _tlc_job(args):
         if fallback is None or "timed out" not in str(ex):
             raise
         res = tlc.run_tlc(spec, cfg, workers=kw.get("workers", 8), heap=kw.get("heap", "4g"),
-                          simulate=f"num={fallback}", depth=24, seed=_SEED, timeout=900)
+                          simulate=f"num={fallback}", depth=20, seed=_SEED, timeout=900)
+        m = re.search(r"number of states generated: (\d+)", res.output)
+        if m and not res.generated:
+            res.generated = int(m.group(1))
         res.cmd += "   # exhaustive run timed out, simulation instead"
         res.simulated = True
         return res
@@ -1166,7 +1169,7 @@ def run(rep, tier, seed):
     quick = tier == "quick"
     replay_sets = ["A", "B", "S"] if quick else ["A", "B", "S", "C"]
     model_only = ["C"] if quick else ["D"]
-    e2e_n = {"A": 48} if quick else {"A": 400, "S": 200}
+    e2e_n = {"A": 48} if quick else {"A": 240, "S": 120}
     with scratch("c06-") as d:
         # ---------------- R3 part 1: record the random histories (real code, forked children)
         rec = record_traces(d, seed, 240 if quick else 3000, 44 if quick else 64)
@@ -1180,7 +1183,7 @@ def run(rep, tier, seed):
         for kname in model_only:
             spec, cfg = gen_mc(d, f"MC_{kname}", K[kname])
             jobs.append((spec, cfg, dict(workers=4 if quick else 12, coverage=True, heap="3g" if quick else "8g",
-                                         timeout=600 if quick else 1500, fallback_simulate=20000)))
+                                         timeout=400 if quick else 700, fallback_simulate=1500)))
             meta.append(("model", kname))
         for j in trace_jobs(rec):
             jobs.append(j)
